@@ -43,7 +43,13 @@ func specNormaliseLog(l LogRecord, exact bool, hashSize int) LogRecord {
 		l.Old = make([]byte, hashSize)
 	}
 	if !exact {
-		l.Message = specTrim(l.Message) + "\n"
+		// only trailing newlines are normalised (the C writer does the same);
+		// blanks and tabs at either end belong to the message
+		m := l.Message
+		for len(m) > 0 && m[len(m)-1] == '\n' {
+			m = m[:len(m)-1]
+		}
+		l.Message = m + "\n"
 	}
 	return l
 }
